@@ -34,7 +34,7 @@ func init() {
 	}})
 }
 
-func (p *c13) NumCases(tier string, seed int64) int { return tierN(tier, 4000, 120000) }
+func (p *c13) NumCases(tier string, seed int64) int { return tierN(tier, 20000, 2400000) }
 
 type c13Level struct {
 	rangeArg  string
